@@ -47,11 +47,11 @@ def wfile(name, text):
 
 
 # ----------------------------------------------------------------------------- proof gate
-SUPPORT = ["MirVerif.Model.DupRestore", "MirVerif.Lemmas.DupRestore", "MirVerif.Lemmas.DupRestoreSpec",
+SUPPORT = ["MirVerif.Lemmas.DupRestoreWfCheck", "MirVerif.Model.DupRestore", "MirVerif.Lemmas.DupRestore", "MirVerif.Lemmas.DupRestoreSpec",
            "MirVerif.Lemmas.DupRestoreRegs", "MirVerif.Lemmas.DupRestoreEdits",
            "MirVerif.Lemmas.DupRestoreMain"]
 proof_ok = ck.proof_gate(["MirVerif.Props.C16"], support_modules=SUPPORT, exes=["mirdrv_c16"])
-REQUIRED = ["dup_closed", "dup_frame", "dup_iso", "restore_identity", "restore_wf",
+REQUIRED = ["wf_of_check", "dup_closed", "dup_frame", "dup_iso", "restore_identity", "restore_wf",
             "gen_idempotent_addr", "gen_history"]
 have = {t["name"].split(".")[-1] for t in ck.cov["theorems"]}
 missing = [t for t in REQUIRED if t not in have]
@@ -130,14 +130,16 @@ def model_input(d0, script):
         if l.split(" ")[0] in ("LK", "O", "W"):
             continue
         lines.append(l)
-    lines += ["DUP", "DUMP"] + script + ["DUMP", "RESTORE", "DUMP", "PRINT"]
+    lines += ["WF", "DUP", "DUMP"] + script + ["DUMP", "RESTORE", "DUMP", "PRINT"]
     return lines
 
 
-def split_driver(out):
+def split_driver(out, wf):
     dumps, cur = [], []
     for l in out.split("\n"):
-        if l.startswith("END"):
+        if l.startswith("WF "):
+            wf.append(l == "WF 1")
+        elif l.startswith("END"):
             dumps.append((cur, l))
             cur = []
         elif l:
@@ -173,13 +175,20 @@ def struct_case(mir_text, script_lines, link, label, how):
     if rc == -999:
         struct_stats["timeouts"] += 1
         return probs
-    if rc == 3 and "MIRERROR" in out:
+    if "MIRERROR" in out:
         struct_stats["mirerror"] += 1      # the module is rejected by scan/load/link: not an input
         return probs
     kinds, funcs = parse_struct(out)
+    if rc != 0 and "DONE" in out and "LeakSanitizer" in err and "AddressSanitizer: " not in err.replace("SUMMARY: AddressSanitizer", ""):
+        # a leak: is it there without any duplicate/restore (then it is not about C16)?
+        rc0, out0, err0 = run([STRUCT, mp, sp] + (["link"] if link else []), timeout=120, env=dict(ENV, C16_NODUP="1"))
+        if rc0 != 0 and "LeakSanitizer" in err0:
+            struct_stats["preexisting_leaks_outside_c16"] = struct_stats.get("preexisting_leaks_outside_c16", 0) + 1
+            rc = 0
     if rc != 0 or "DONE" not in out:
-        probs.append({"kind": "crash", "rc": rc, "stderr": err[-1500:], "stdout_tail": out[-400:],
-                      "func": funcs[-1]["name"] if funcs else None})
+        summ = [l for l in err.split("\n") if "ERROR:" in l or l.startswith("SUMMARY:")]
+        probs.append({"kind": "crash", "rc": rc, "summary": " | ".join(summ)[:400], "stderr": err[:1500] + " ... " + err[-800:],
+                      "stdout_tail": out[-400:], "func": funcs[-1]["name"] if funcs else None})
         return probs
     struct_stats["modules"] += 1
     # classification of every opcode (once per run is enough, it does not depend on the module)
@@ -213,7 +222,14 @@ def struct_case(mir_text, script_lines, link, label, how):
     if rcd != 0:
         probs.append({"kind": "driver", "rc": rcd, "stderr": e[-800:]})
         return probs
-    dd = split_driver(o)
+    wf = []
+    dd = split_driver(o, wf)
+    if len(wf) == len(per):
+        for (f, _), ok in zip(per, wf):
+            if ok:
+                struct_stats["wf_holds"] = struct_stats.get("wf_holds", 0) + 1
+            else:       # the theorems' hypothesis fails on a real function: recorded, the dumps are still compared
+                struct_stats.setdefault("wf_fails", []).append(f"{label}:{f['name']}")
     if len(dd) != 4 * len(per):
         probs.append({"kind": "driver-output", "expected": 4 * len(per), "got": len(dd)})
         return probs
@@ -259,7 +275,7 @@ def report_struct(probs, mir_text, script_lines, link, label):
                "how_to_rerun": "./check C16 --replay <this file>"}
         if p["kind"] in ("property", "crash"):
             # the real functions broke the property for this input (pointer identity / printed text / crash)
-            ck.violation(rep, what=f"duplicate/restore on {label}: {p['kind']} {p.get('flags', p.get('stderr', ''))!s:.300}",
+            ck.violation(rep, what=f"duplicate/restore on {label}: {p['kind']} func={p.get('func')} {p.get('flags', p.get('summary', ''))!s:.300}",
                          signature=None)
         elif p["kind"] == "dump-diff":
             # model != code.  Decide by the property itself: restored state (D3) must equal D0 on the implementation
@@ -305,8 +321,10 @@ def intrinsic_problems(rc, out, err):
         return [{"kind": "timeout"}], r
     if rc != 0 or "DONE" not in out:
         mirerr = [l for l in r["other"] if l.startswith("MIRERROR")]
+        summ = [l for l in err.split("\n") if "ERROR:" in l or l.startswith("SUMMARY:")]
         probs.append({"kind": "crash" if not mirerr else "mir-error", "rc": rc, "detail": (mirerr or [""])[0],
-                      "stderr": err[-1200:], "last": out.strip().split("\n")[-3:]})
+                      "summary": " | ".join(summ)[:400], "stderr": err[:1500] + " ... " + err[-600:],
+                      "last": out.strip().split("\n")[-3:]})
         return probs, r
     for name, g in r["G"]:
         if g["ret_addr"] != "1" or g["addr_same"] != "1" or g["first_ret_same"] != "1" or g["mc_set"] != "1":
@@ -548,7 +566,9 @@ with ThreadPoolExecutor(max_workers=16) as ex:
         if probs and not struct_failed:
             struct_failed = report_struct(probs, text, script, link, label) or struct_failed
 dist["struct"].update(struct_stats)
-ck.stage("structural", seconds=round(time.time() - t_s, 1), **{k: v for k, v in struct_stats.items() if k != "edit_kinds"})
+if struct_stats.get("wf_fails"):
+    struct_stats["wf_fails"] = sorted(set(struct_stats["wf_fails"]))[:50]
+ck.stage("structural", seconds=round(time.time() - t_s, 1), **{k: v for k, v in struct_stats.items() if k not in ("edit_kinds", "wf_fails")})
 if struct_stats["functions"] == 0:
     ck.broken_ties.append({"kind": "correspondence", "name": "structural tie evaluated no function"})
 
@@ -567,7 +587,7 @@ def funcs_of(text):
 
 def corpus_plan(label, text, level, iface, seed):
     r = SplitMix(seed)
-    path = wfile("b_" + hashlib.sha1(label.encode()).hexdigest()[:12] + ".mir", text)
+    path = wfile("b_" + hashlib.sha1(f"{label}|{level}|{iface}".encode()).hexdigest()[:14] + ".mir", text)
     fs = funcs_of(text)
     plan = [f"OPT {level}", f"SCAN {path}", f"LOADLINK {iface}", "SNAP s0"]
     order = list(fs)
@@ -717,7 +737,8 @@ if BEHAV_DBG and not behav_failed[0]:
     for pi, prog in enumerate(progs[:10]):
         files = {m[0]: os.path.join(WORK, f"g_{m[0]}.mir") for m in prog.modules}
         lv, iface = pi % 4, ["interp", "gen", "lazy"][pi % 3]
-        plan, canon, interp, st = c16_gen.make_plans(rng, prog, files, lv, iface, "gen", kf_open[KF1], kf_open[KF2], nact=20)
+        plan, canon, interp, st = c16_gen.make_plans(rng, prog, files, lv, iface, "gen", kf_open[KF1], kf_open[KF2], nact=20,
+                                                     no_icode_before_late=kf_open[KF1])
         rc, out, err = run_plan(plan, f"dbg{pi}", BEHAV_DBG)
         probs, _ = intrinsic_problems(rc, out, err)
         nd += 1
